@@ -71,6 +71,15 @@ RegExtra(n) ==
       [] n = "ctype" -> <<A("Certificate Type", "X_509")>>
       [] OTHER -> <<>>
 
+\* registrations whose OBJECT lacks an optional field of the key block / has an unusual sub-type
+RegShape(t, shape) ==
+    LET b == PRegister(t, AllBits, <<>>) IN
+    CASE shape = "noalg" -> [b EXCEPT !.obj.alg = "NA"]
+      [] shape = "nolen" -> [b EXCEPT !.obj.len = 0]
+      [] shape = "empty" -> [b EXCEPT !.obj.val = "", !.obj.vlen = 0]
+      [] shape = "pgp"   -> [b EXCEPT !.obj.sub = IF t = "Certificate" THEN "PGP" ELSE @]
+      [] OTHER -> b
+
 GANames(n) == CASE n = "some" -> <<"Cryptographic Algorithm", "x-custom", "State">>
                 [] n = "dup" -> <<"Name", "Name", "Sensitive", "Operation Policy Name">>
                 [] OTHER -> <<>>
@@ -102,6 +111,7 @@ MkC13(d) ==
       [] d.k = "set" -> P("SetAttribute", [uid |-> d.u, new |-> A(d.n, ValOf(d.n))])
       [] d.k = "create" -> P("Create", CreateP(d.n))
       [] d.k = "register" -> P("Register", PRegister(d.s, AllBits, RegExtra(d.n)))
+      [] d.k = "regshape" -> P("Register", RegShape(d.s, d.n))
 
 \* only build steps that succeed (the lifecycle is monotone, so the build graph is finite)
 BuildMenu(s) ==
@@ -145,6 +155,7 @@ Grid(s) ==
     \cup {D("get", "bob", 12, 1, "", 0, "", FALSE), D("uidop", "bob", 12, 1, "Destroy", 0, "", FALSE)}
     \cup {D("create", "alice", 12, 0, n, 0, "", FALSE) : n \in {"ok", "custom", "badlen", "secret", "contact", "state", "names", "dup"}}
     \cup {D("register", "alice", 12, 0, n, 0, t, FALSE) : t \in Types7 \cup {"Template"}, n \in {"", "alg", "len", "sens", "state", "ctype"}}
+    \cup {D("regshape", "alice", 12, 0, n, 0, t, FALSE) : t \in Types7, n \in {"noalg", "nolen", "empty", "pgp"}}
 
 MenuC13(s) == IF LastWasProbe THEN {} ELSE BuildMenu(s) \cup (IF depth >= 1 THEN Grid(s) ELSE {})
 
